@@ -24,17 +24,26 @@ class FRot:
     @classmethod
     def from_quat(cls, q):
         q = np.asarray(_strip(q), dtype=object)
-        if q.shape != (4,):
-            raise Unsupported("Rotation model: single quaternion only")
+        if q.shape != (4,) and not (q.ndim == 2 and q.shape[1] == 4):
+            raise ValueError("Expected `quat` to have shape (4,) or (N, 4), got {}".format(q.shape))
         return cls(q)
 
-    def as_matrix(self):
-        x, y, z, w = self.q
+    def _one(self, q):
+        x, y, z, w = q
         n = x * x + y * y + z * z + w * w
-        M = [[(w * w + x * x - y * y - z * z) / n, 2 * (x * y - z * w) / n, 2 * (x * z + y * w) / n],
-             [2 * (x * y + z * w) / n, (w * w - x * x + y * y - z * z) / n, 2 * (y * z - x * w) / n],
-             [2 * (x * z - y * w) / n, 2 * (y * z + x * w) / n, (w * w - x * x - y * y + z * z) / n]]
-        return sarr(M)
+        return [[(w * w + x * x - y * y - z * z) / n, 2 * (x * y - z * w) / n, 2 * (x * z + y * w) / n],
+                [2 * (x * y + z * w) / n, (w * w - x * x + y * y - z * z) / n, 2 * (y * z - x * w) / n],
+                [2 * (x * z - y * w) / n, 2 * (y * z + x * w) / n, (w * w - x * x - y * y + z * z) / n]]
+
+    def as_matrix(self):
+        if self.q.ndim == 2:
+            return sarr([self._one(row) for row in self.q]) if len(self.q) else np.zeros((0, 3, 3), dtype=object).view(SArr)
+        return sarr(self._one(self.q))
+
+    def __len__(self):
+        if self.q.ndim == 1:
+            raise TypeError("Single rotation has no len().")
+        return len(self.q)
 
     def __getattr__(self, nm):
         raise Unsupported(f"Rotation model: {nm} not modelled")
@@ -191,6 +200,8 @@ def models_selftest(seed=0, rounds=5):
             Rm = Rotation.from_quat(q).as_matrix()
             Fm = np.asarray(FRot.from_quat(list(q)).as_matrix(), dtype=float)
             assert np.allclose(Rm, Fm, atol=1e-12), ("Rotation.from_quat.as_matrix", Rm, Fm); n += 1
+            qs = rng.normal(size=(3, 4))
+            assert np.allclose(Rotation.from_quat(qs).as_matrix(), np.asarray(FRot.from_quat(qs).as_matrix(), dtype=float), atol=1e-12); n += 1
             ru1, ru2 = real_universe(p1, m1, [f"A{i}" for i in range(k1)]), real_universe(p2, m2, [f"B{i}" for i in range(k2)])
             fu1, fu2 = FUniverse(p1, m1, [f"A{i}" for i in range(k1)]), FUniverse(p2, m2, [f"B{i}" for i in range(k2)])
             assert np.allclose(ru2.atoms.center_of_mass(), np.asarray(fu2.atoms.center_of_mass(), dtype=float), atol=1e-5); n += 1
